@@ -12,7 +12,19 @@
    correspondence check with guard pages and canaries (partial label, DESIGN.md section 7). *)
 From SF Require Import Base.Prelude Gen.Generated Unsized.Types Unsized.Parse Unsized.Machine Unsized.Ops.
 From SF Require Import Unsized.Proofs.EncodeParse Unsized.Proofs.Mem Unsized.Proofs.Notify Unsized.Proofs.Flat.
-From SF Require Import Unsized.Proofs.Layout Unsized.Proofs.Path Unsized.Proofs.Resize Unsized.Proofs.History.
+From SF Require Import Unsized.Proofs.Layout Unsized.Proofs.Path Unsized.Proofs.Resize Unsized.Proofs.History Unsized.Proofs.History2.
+
+(* the full operation set: no Fault, no Panic, pointer assertions hold *)
+Theorem C03_all_ops_no_fault_in_any_history :
+  forall ovf t h v s top pi0 v',
+    RepF pi0 t v s top -> m_refuse s <> 1 -> orunX (m_cap s) t v h = Some v' ->
+    exists s' top', mrunX ovf t s top h = Ok (s', top') /\ top_check s' top' = true /\ m_len s' <= m_cap s' /\ m_cap s' = m_cap s.
+Proof.
+  intros ovf t h v s top pi0 v' R Hn Ho.
+  destruct (xrun_refines ovf t h v s top pi0 v' R Hn Ho) as (s' & top' & pi' & Hrun & R' & Hc).
+  exists s', top'. split; [exact Hrun|]. split; [exact (repf_top_check _ _ _ _ _ R')|].
+  pose proof (repf_cap _ _ _ _ _ R'). destruct R' as [_ _ _ _ Hl _ _]. split; [lia|exact Hc].
+Qed.
 
 (* any shape, any depth, any history with failures in it: every access of the run stays inside the allocation (the
    outcome is Ok: neither Fault nor Panic), and the drop-time / debug pointer assertions hold at the end *)
